@@ -342,6 +342,19 @@ func genReq(t *rapid.T, label string, intact *bool) Req {
 				{"query vector of the wrong length (flat index)", func(b map[string]any) {
 					b["query"] = map[string]any{"property": "flat", "vectorFlat": map[string]any{"vector": []any{1.0}, "operator": "near", "limit": 10.0}}
 				}},
+				{"query vector of the wrong length together with a valid pre-filter", func(b map[string]any) {
+					okFilter := rapid.SampledFrom([]map[string]any{
+						{"property": "size", "integer": map[string]any{"value": 1.0, "operator": "greaterThanOrEquals"}},
+						{"property": "category", "string": map[string]any{"value": "a", "operator": "equals"}},
+						{"property": "_or", "_or": []any{map[string]any{"property": "price", "float": map[string]any{"value": 1.0, "operator": "lessThan"}}, map[string]any{"property": "labels", "stringArray": map[string]any{"value": []any{"x"}, "operator": "containsAny"}}}},
+					}).Draw(t, label+"-okfilter")
+					wrong := rapid.SampledFrom([][]any{{1.0}, {1.0, 2.0, 3.0}, {}}).Draw(t, label+"-wrongvec")
+					if rapid.Bool().Draw(t, label+"-wf-flat") {
+						b["query"] = map[string]any{"property": "flat", "vectorFlat": map[string]any{"vector": wrong, "operator": "near", "limit": 10.0, "filter": okFilter}}
+					} else {
+						b["query"] = map[string]any{"property": "vector", "vectorVamana": map[string]any{"vector": wrong, "operator": "near", "searchSize": 75.0, "limit": 10.0, "filter": okFilter}}
+					}
+				}},
 				{"query vector of the wrong length inside _and", func(b map[string]any) {
 					b["query"] = map[string]any{"property": "_and", "_and": []any{map[string]any{"property": "flat", "vectorFlat": map[string]any{"vector": []any{1.0, 2.0, 3.0, 4.0}, "operator": "near", "limit": 10.0}}, map[string]any{"property": "size", "integer": map[string]any{"value": 1.0, "operator": "equals"}}}}
 				}},
